@@ -581,7 +581,7 @@ func ruleC04_5(c *Ctx) {
 			if call, ok := in.(*ssa.Call); ok && call.Call.IsInvoke() && call.Call.Method.Name() == "Discard" {
 				at = in
 				e := expr(call.Call.Args[0])
-				okD = strings.Contains(e, "invoke<InitializeStep>") && strings.Contains(e, "(rcproxy/core/codec.Status).Len(\"+OK\\r\\n\")") && strings.Contains(e, " * ")
+				okD = strings.Contains(e, "invoke<InitializeStep>") && (strings.Contains(e, "(rcproxy/core/codec.Status).Len(\"+OK\\r\\n\")") || strings.Contains(e, "builtin:len(\"+OK\\r\\n\")")) && strings.Contains(e, " * ")
 			}
 		})
 		if at == nil {
